@@ -1,7 +1,7 @@
 (* C03 through a system boundary: in the nested run every wire of the resolved (inlined) wiring
    carries its source's latest report -- the flat run has that invariant (Proofs/LatestP.v) and the
    nested run is in lockstep with it (Proofs/InlineLoopP.v). *)
-From TV Require Import Base Model.Wiring Model.Ticker Model.Component Model.Sim Model.SimTime Model.Inline
+From TV Require Import Base Model.Wiring Model.Ticker Model.Component Model.Sim Model.SimTime Model.Inline Model.NSim
   Proofs.WiringP Proofs.SimP Proofs.NonInterfP Proofs.LatestP Proofs.EqvP Proofs.WakeWfP Proofs.ParDevP Proofs.InlineP Proofs.InlineLoopP
   Oracle.SimCheck Proofs.InlineScopeP.
 Open Scope Z_scope.
@@ -41,6 +41,44 @@ Proof.
   destruct (tick_with cfg devf (on_tick_level cfg devf fuel) top initial roots [] s0) as [[s1 out] ob].
   assert (H0 : LATEST conns s0) by (intros u p c q _ v H; cbn in H; discriminate).
   apply sim_loop_latest; [apply (proj1 (HT H0))|].
+  intros e He. destruct (HW e He) as [Hin|Hre]; [|exact Hre].
+  unfold s0 in Hin. change (wake_of (log_tick ?x top initial roots) top) with (wake_of x top) in Hin.
+  rewrite wake_of_set_wake in Hin. destruct Hin.
+Qed.
+
+(* the same on scripts of master ticks and interrupts of listed devices *)
+Lemma sim_script_latest : forall script s ob,
+  (forall c w, In (IStim c w) script -> c <> ext_id /\ c <> exp_id) ->
+  LATEST conns s -> real_keys_s s -> LATEST conns (fst (sim_script cfg devf fuel script s ob)).
+Proof.
+  induction script as [|[|c w] r IH]; intros s ob Hok HL HK; cbn [sim_script]; [exact HL| |].
+  - assert (Hok' : forall c w, In (IStim c w) r -> c <> ext_id /\ c <> exp_id) by (intros c w Hi; apply (Hok c w); right; exact Hi).
+    destruct (first_wakeups (wake_of s top)) as [[when roots]|] eqn:Ef; [|apply IH; assumption].
+    set (m := {| m_s := s; m_tprev := 0; m_real := 0; m_now := 0; m_obs := ob; m_ticks := [] |}).
+    pose proof (do_tick_latest cfg devf fuel Hwf Hdev m when roots 0 HL HK (first_wakeups_roots _ _ _ Ef)) as H.
+    unfold do_tick in H. cbn [m m_s] in H.
+    destruct (tick_level cfg devf fuel top when roots [] _) as [[s2 out] o]. cbn [m_s] in H. destruct H as [H1 H2].
+    apply IH; assumption.
+  - assert (Hok' : forall c w, In (IStim c w) r -> c <> ext_id /\ c <> exp_id) by (intros c' w' Hi; apply (Hok c' w'); right; exact Hi).
+    apply IH; [exact Hok' | exact HL |].
+    intros [k v] He. unfold NSim.stim in He. rewrite wake_of_set_wake in He. apply In_upd_cases in He.
+    destruct He as [[E _]|He]; [subst k; cbn [fst]; apply (Hok c w); left; reflexivity | apply (HK (k, v)); exact He].
+Qed.
+
+Theorem sim_script_from_start_latest initial script :
+  (forall c w, In (IStim c w) script -> c <> ext_id /\ c <> exp_id) ->
+  LATEST conns (fst (sim_script_from_start cfg devf fuel initial script)).
+Proof.
+  intros Hok. unfold sim_script_from_start. unfold tick_level.
+  set (roots := map fst (l_order (level_of cfg top))).
+  set (s0 := log_tick (set_wake s_init top []) top initial roots).
+  assert (Hr : ~ In ext_id roots /\ ~ In exp_id roots).
+  { destruct Hwf as [_ [_ [_ [_ [_ Hreal]]]]]. split; intros Hi; destruct (Hreal _ Hi) as [H1 H2]; congruence. }
+  pose proof (tick_latest cfg devf (on_tick_level cfg devf fuel) top initial roots [] s0 Hwf Hdev (proj1 Hr) (proj2 Hr)) as HT.
+  pose proof (tick_wake_keys cfg devf (on_tick_level cfg devf fuel) top initial roots [] s0 (proj1 Hwf)) as HW.
+  destruct (tick_with cfg devf (on_tick_level cfg devf fuel) top initial roots [] s0) as [[s1 out] ob].
+  assert (H0 : LATEST conns s0) by (intros u p c q _ v H; cbn in H; discriminate).
+  apply sim_script_latest; [exact Hok | apply (proj1 (HT H0))|].
   intros e He. destruct (HW e He) as [Hin|Hre]; [|exact Hre].
   unfold s0 in Hin. change (wake_of (log_tick ?x top initial roots) top) with (wake_of x top) in Hin.
   rewrite wake_of_set_wake in Hin. destruct Hin.
